@@ -119,7 +119,10 @@ func GenHistoryFamily(w *Writer, r *Rng, t Tier) error {
 			case 2:
 				e = Filt{Base: vn, Pred: NumLit{Text: Pick(dr, []string{"1", "2"})}}
 			case 3:
-				e = Step{Base: vn, Axis: Pick(dr, AllAxes), Test: Test{Kind: "node"}}
+				// (every kind of node test: the name tests filter what the axis handed them, and for `self` that
+				// is the caller's own slice)
+				e = Step{Base: vn, Axis: Pick(dr, append([]string{"self", "self", "self"}, AllAxes...)),
+					Test: Pick(dr, []Test{{Kind: "node"}, {Kind: "any"}, {Kind: "any"}, {Kind: "nsany", A: "p"}, {Kind: "localany", A: Pick(dr, g.Cfg.Names)}, {Kind: "text"}})}
 			case 4:
 				e = Bin{Op: "union", L: Bin{Op: "union", L: vn, R: Step{Base: Root{}, Axis: "descendant", Test: Test{Kind: "any"}}}, R: vn}
 			case 5:
